@@ -72,7 +72,7 @@ def run_operator_table(P, rep, rule="R-TABLE.operators"):
         else:
             rep.ok(rule, site, P.where(fn), "decided by ValueViewCmp::%s(lh, rh) only" % want if want != "contains_check" else "decided by contains_check(lh, rh)")
     # operator spelling table: from_str
-    fs = [f for f in P.fns.values() if f.key == "<" + IFB + "ComparisonOperator>::from_str"]
+    fs = P.by_key("<" + IFB + "ComparisonOperator>::from_str")
     if len(fs) == 1:
         spell = {}
         f2 = fs[0]
